@@ -249,6 +249,8 @@ func runC19(c *Ctx) {
 	if cf == nil {
 		return
 	}
+	// padded hash-map keys are zeroed as a whole on the kernel side (the control plane's keys have zero padding)
+	c.runCRules("C19", nil)
 	sizes := types.SizesFor("gc", "amd64")
 	stub := c.P.Pkg("control")
 	pairs := mirrorPairs(cf, stub.Types)
@@ -294,6 +296,36 @@ func runC19(c *Ctx) {
 			}
 		}
 		c.R.Floor("STRUCT/pairs-real", declaredReal, 2)
+		// the load-time PARAM literal (an anonymous struct rewritten into the program's constants) mirrors struct dae_param
+		nParam := 0
+		for _, file := range real.Syntax {
+			ast.Inspect(file, func(m ast.Node) bool {
+				kv, ok := m.(*ast.KeyValueExpr)
+				if !ok {
+					return true
+				}
+				if tv, ok := real.TypesInfo.Types[kv.Key]; !ok || tv.Value == nil || tv.Value.Kind() != constant.String || constant.StringVal(tv.Value) != "PARAM" {
+					return true
+				}
+				lit, ok := ast.Unparen(kv.Value).(*ast.CompositeLit)
+				if !ok {
+					return true
+				}
+				st, ok := real.TypesInfo.TypeOf(lit).(*types.Struct)
+				if !ok {
+					return true
+				}
+				if _, has := cf.Records["dae_param"]; !has {
+					return true
+				}
+				nParam++
+				tn := types.NewTypeName(lit.Pos(), real.Types, "PARAMliteral", nil)
+				types.NewNamed(tn, st, nil)
+				compareLayout(c, "STRUCT", "real", sizes, cf, "dae_param", tn, rp.Pos(lit.Pos()))
+				return true
+			})
+		}
+		c.R.Floor("STRUCT/param-literal", nParam, 1)
 	}
 	// 32-bit variant of the sizes (layout must not depend on the word size)
 	if c.Tier == "thorough" {
